@@ -159,3 +159,6 @@ Record table_ok (s : srv) : Prop := {
 
 (* observation used by the correspondence: socket states of all incomers created so far *)
 Definition sock_states (s : srv) : list sock := map (sk s) (seq 0 (next s)).
+
+(* the table has an entry for peer address ca *)
+Definition has_entry (ca : Z) (l : alist) : Prop := lookup ca l <> None.
